@@ -62,10 +62,24 @@ func VH_C17_Cond(p []int) {
 	var c Condition
 	switch p[1] {
 	case 1:
-		c = Cond("kw", Eq, "v")
+		// whatever it holds: text, a writable Stack, a read-only Stack (an
+		// instance of its own, not the Condition's to release or to ask)
+		held := Or().Push("x", "y")
+		switch nondetChoice(4) {
+		case 0:
+			c = Cond("kw", Eq, "v")
+		case 1:
+			c = Cond("kw", Eq, held)
+		case 2:
+			c = Cond("kw", Eq, vhAliasStack(held.SetReadOnly(true)))
+		default:
+			held.SetReadOnly(true)
+			c = Cond("kw", Eq, &held)
+		}
 		err := c.Free()
 		verifAssert(err == nil, "free-err")
 		verifAssert(c.IsZero() && !c.IsInit(), "free-zeroes-handle")
+		verifAssert(held.IsInit() && held.Len() == 2, "free-leaves-the-expression-alone")
 	case 2:
 		c.Init()
 		verifAssert(c.IsInit(), "Init-initialises")
